@@ -145,7 +145,11 @@ impl IteratorNext {
             .pop()
             .expect("iterator stack should have at least an iterator");
 
-        iterator.step(context)?;
+        // Note: An exhausted iterator is not stepped again, the remaining elements of an array
+        //       pattern are `undefined` (`[a, b] = iterator`).
+        if !iterator.done() {
+            iterator.step(context)?;
+        }
 
         context.vm.frame_mut().iterators.push(iterator);
 
@@ -362,7 +366,7 @@ impl IteratorToArray {
 
         let mut values = Vec::new();
 
-        loop {
+        while !iterator.done() {
             let done = match iterator.step(context) {
                 Ok(done) => done,
                 Err(err) => {
